@@ -201,6 +201,7 @@ pub fn gen_corpus(out: &Path, produced_by: &str) -> Result<usize, String> {
             allow_restart: false,
             allow_seed: false,
         foreign_lock_pct: 0,
+        allow_empty_payload: false,
         };
         let mut ops_list = seq::gen_ops(&mut r, &p, n_clients, &cfg, page_size.unwrap_or(4096));
         // make sure there is real content: every client gets a few versions and a snapshot
